@@ -81,7 +81,7 @@ SB_OP(lerp_row)
 SB_OP(rgbw)
 {
     sb_rgbw_conversion_t conv;
-    memset(&conv, 0, sizeof(conv));
+    memset(&conv, SBH_FILL, sizeof(conv));
     sb_rgb_color_t c = { (uint8_t)tokul(t[3]), (uint8_t)tokul(t[4]), (uint8_t)tokul(t[5]) };
     if (t[2] == "s")
         sb_rgbw_conversion_use_min_subtraction(&conv);
@@ -101,7 +101,7 @@ SB_OP(rgbw)
 SB_OP(rgbw_row)
 {
     sb_rgbw_conversion_t conv;
-    memset(&conv, 0, sizeof(conv));
+    memset(&conv, SBH_FILL, sizeof(conv));
     uint8_t red = (uint8_t)tokul(t[3]);
     if (t[2] == "s")
         sb_rgbw_conversion_use_min_subtraction(&conv);
@@ -130,6 +130,8 @@ SB_OP(rgbw_row)
 SB_OP(rgbwseq)
 {
     sb_rgbw_conversion_t conv;
+    // there is no init function: an object that was never set up is a zero-initialised one (`= {0}`), and the sequences
+    // may convert before any set-up call
     memset(&conv, 0, sizeof(conv));
     for (size_t i = 2; i < t.size(); i++) {
         const std::string& st = t[i];
@@ -179,7 +181,7 @@ SB_OP(rgbwseq)
 SB_OP(bufops)
 {
     sb_buffer_t buf;
-    memset(&buf, 0, sizeof(buf));
+    memset(&buf, SBH_FILL, sizeof(buf));
     ExactBuf* view = nullptr;
     std::vector<uint8_t> orig;
     if (t[2][0] == 'o') {
